@@ -11,7 +11,14 @@ EVENT, VERSION = 13004, 13003
 UNK1, UNK2 = 60001, 60002
 TIMED = [POSE, GNSS_INFO, IMU]
 UNTIMED = [EVENT, VERSION, UNK1, UNK2]
-SIZES = {}   # type -> message size, learnt from the harness output
+HEADER_SIZE = 24      # overwritten from the generated constants by the property modules
+POPULATE_COUNT = 10
+
+
+def set_consts(consts):
+    global HEADER_SIZE, POPULATE_COUNT
+    HEADER_SIZE = consts['header_size']
+    POPULATE_COUNT = consts['populate_count']
 
 
 def logkey(spec):
@@ -77,10 +84,11 @@ def fixed_logs():
     ]
 
 
-def late_source_log(rng, n=12):
+def late_source_log(rng, n=None):
     """more than populate_count messages of one type; a source id that first appears after them"""
     spec = []
     t8 = 80
+    n = n or POPULATE_COUNT + 2
     for i in range(n):
         t8 += 8
         spec.append(['m', POSE, 1, t8])
@@ -160,7 +168,7 @@ def expected_pieces(tok, data, by_off):
     for p in [x for x in ps.split(',') if x]:
         t, v = p[0], p[1:]
         if t == 'H':
-            o = int(v); out.append(['H', data[o:o + 24].hex()])
+            o = int(v); out.append(['H', data[o:o + HEADER_SIZE].hex()])
         elif t == 'P':
             m = by_off[int(v)]
             out.append(['P', None if m['cls'] is None else [m['cls'], m['t8']]])
@@ -235,3 +243,17 @@ def run_impl(script, cases, tmpdir, tag, nproc=None, timeout=1500):
             o = json.loads(l)
             out[o['id']] = o
     return out
+
+
+def coqchk(ctx, pid):
+    """thorough tier: re-check the property's .vo closure with the independent checker and record its axiom list"""
+    rc, so, se = vf.sh('timeout 1200 coqchk -silent -o -R theories FEC FEC.Properties.%s' % pid, cwd=vf.COQ, timeout=1260)
+    out = so + se
+    i = out.find('CONTEXT SUMMARY')
+    summary = ' '.join(out[i:].split()) if i >= 0 else out[-400:]
+    ok = rc == 0 and '* Axioms: <none>' in summary and 'type-in-type: <none>' in summary and 'unsafe (co)fixpoints: <none>' in summary \
+        and 'positivity is assumed: <none>' in summary
+    ctx.obligation('coqchk -o on the closure of Properties/%s.vo: no axioms, no assumed positivity / guard / universes' % pid, ok, 'coqchk', summary[:600])
+    if not ok:
+        ctx.broken_proof('coqchk does not accept the development or reports axioms: ' + summary[:300])
+    return ok
